@@ -27,7 +27,7 @@ def setup():
 
 def build(inst):
     P, K, N = inst["P"], inst["K"], inst["N"]
-    H = np.array(inst["H"], dtype=np.int64).reshape(K, N)
+    H = np.array(inst["H"], dtype=np.int8).reshape(K, N)      # the programs hold haplotypes as int8 (LocusPrior.encode_haplotypes)
     A = inst["A"]
     T = inst.get("tile", 1)
     if T > 1:
